@@ -61,6 +61,44 @@ def models():
     ]
 
 
+def fit_placement_3d(pid):
+    """fit on 3-D data: parameters differ along BOTH remaining dimensions, the fitted dimension in every position"""
+    fails, n_eval = [], 0
+    # two remaining dimensions: parameters differ along BOTH, the fitted dimension sits in every position
+    lin = lambda x, a, b: a * x + b
+    xs = np.linspace(0.0, 2.0, 9)
+    A, B = 3, 4
+    pa = np.array([[1.0 + ia + 10.0 * ib for ib in range(B)] for ia in range(A)])       # slope at label (ia, ib)
+    pb = np.array([[-2.0 + 0.5 * ia - 3.0 * ib for ib in range(B)] for ia in range(A)])  # offset at label (ia, ib)
+    cube = pa[None, :, :] * xs[:, None, None] + pb[None, :, :]                            # (t, a, b)
+    for pos in (0, 1, 2):
+        order = [1, 2]; order.insert(pos, 0)                     # where 't' goes among ('a', 'b')
+        names = ["t", "a", "b"]
+        dims = [names[k] for k in order]
+        vals = np.transpose(cube, order)
+        coords = [{"t": xs, "a": np.arange(A) * 1.0 + 7, "b": np.arange(B) * 2.0 - 1}[d] for d in dims]
+        d = dnp.DNPData(vals.copy(), dims, coords)
+        n_eval += 1
+        try:
+            with warnings.catch_warnings():
+                warnings.simplefilter("ignore")
+                out = dnp.fit(lin, d, "t", (0.5, 0.5))
+        except Exception as e:  # noqa: BLE001
+            key = "%s:fit-raises:3d:pos%d" % (pid, pos)
+            fails.append({"key": key, "clause": key, "ops": [{"dim_pos": pos, "error": type(e).__name__}]}); continue
+        po = out["popt"]
+        ok = list(po.dims)[0] == "popt" and set(po.dims[1:]) == {"a", "b"}
+        if ok:
+            ia_ax, ib_ax = list(po.dims).index("a"), list(po.dims).index("b")
+            got = np.moveaxis(np.asarray(po.values), [0, ia_ax, ib_ax], [0, 1, 2])
+            ok = got.shape == (2, A, B) and np.allclose(got[0], pa, rtol=1e-6, atol=1e-8) and np.allclose(got[1], pb, rtol=1e-6, atol=1e-8) \
+                and np.array_equal(po.coords["a"], np.arange(A) * 1.0 + 7) and np.array_equal(po.coords["b"], np.arange(B) * 2.0 - 1)
+        if not ok:
+            key = "%s:popt-labels:3d:pos%d" % (pid, pos)
+            fails.append({"key": key, "clause": key, "ops": [{"dim_pos": pos, "dims": list(po.dims), "shape": list(po.shape)}]})
+    return fails, n_eval
+
+
 def recovery_oracle(tier, seed):
     """noise-free data from every model, per-trace parameters, dim in every position"""
     rng = random.Random(seed * 7919 + 118)
@@ -105,38 +143,8 @@ def recovery_oracle(tier, seed):
                 if not ok:
                     key = "C18:fit-curve:%s:pos%d" % (name, pos)
                     fails.append({"key": key, "clause": key, "ops": [{"model": name, "dim_pos": pos, "fit_points": fit_points}]})
-    # two remaining dimensions: parameters differ along BOTH, the fitted dimension sits in every position
-    lin = lambda x, a, b: a * x + b
-    xs = np.linspace(0.0, 2.0, 9)
-    A, B = 3, 4
-    pa = np.array([[1.0 + ia + 10.0 * ib for ib in range(B)] for ia in range(A)])       # slope at label (ia, ib)
-    pb = np.array([[-2.0 + 0.5 * ia - 3.0 * ib for ib in range(B)] for ia in range(A)])  # offset at label (ia, ib)
-    cube = pa[None, :, :] * xs[:, None, None] + pb[None, :, :]                            # (t, a, b)
-    for pos in (0, 1, 2):
-        order = [1, 2]; order.insert(pos, 0)                     # where 't' goes among ('a', 'b')
-        names = ["t", "a", "b"]
-        dims = [names[k] for k in order]
-        vals = np.transpose(cube, order)
-        coords = [{"t": xs, "a": np.arange(A) * 1.0 + 7, "b": np.arange(B) * 2.0 - 1}[d] for d in dims]
-        d = dnp.DNPData(vals.copy(), dims, coords)
-        n_eval += 1
-        try:
-            with warnings.catch_warnings():
-                warnings.simplefilter("ignore")
-                out = dnp.fit(lin, d, "t", (0.5, 0.5))
-        except Exception as e:  # noqa: BLE001
-            key = "C18:fit-raises:3d:pos%d" % pos
-            fails.append({"key": key, "clause": key, "ops": [{"dim_pos": pos, "error": type(e).__name__}]}); continue
-        po = out["popt"]
-        ok = list(po.dims)[0] == "popt" and set(po.dims[1:]) == {"a", "b"}
-        if ok:
-            ia_ax, ib_ax = list(po.dims).index("a"), list(po.dims).index("b")
-            got = np.moveaxis(np.asarray(po.values), [0, ia_ax, ib_ax], [0, 1, 2])
-            ok = got.shape == (2, A, B) and np.allclose(got[0], pa, rtol=1e-6, atol=1e-8) and np.allclose(got[1], pb, rtol=1e-6, atol=1e-8) \
-                and np.array_equal(po.coords["a"], np.arange(A) * 1.0 + 7) and np.array_equal(po.coords["b"], np.arange(B) * 2.0 - 1)
-        if not ok:
-            key = "C18:popt-labels:3d:pos%d" % pos
-            fails.append({"key": key, "clause": key, "ops": [{"dim_pos": pos, "dims": list(po.dims), "shape": list(po.shape)}]})
+    f3, n3 = fit_placement_3d("C18")
+    fails += f3; n_eval += n3
     return fails, n_eval
 
 
